@@ -378,14 +378,17 @@ def cmd_fault(args):
         jobs = [(e, err, False) for e in targets for err in (["EIO", "ENOSPC"] if e["kind"] in ("write", "create", "mkdir") else ["EIO"])]
         # second variant: after the failed call do NOT retry but drop the handle and reopen at once
         jobs += [(e, "EIO", True) for e in targets]
+        # third variant: after the failed call neither retry nor reopen; go on with the REST of the workload (a later, different
+        # version change then meets whatever the failed one left behind), final flush + reopen compared with the oracle
+        jobs += [(e, "EIO", "skip") for e in targets]
 
         def one(job):
             e, err, noretry = job
             import threading
             t = os.path.join(root, "w%d" % threading.get_ident())
             inj = "%s:error=%s:when=%d" % (e["name"], err, e["ordinal"])
-            o, _ = run_traced(t, wl, blob, mode="fault", inject=inj, log=t + ".flog", extra=["--no-backup"] + (["--no-retry"] if noretry else []))
-            return e, err + ("/no-retry" if noretry else ""), o
+            o, _ = run_traced(t, wl, blob, mode="fault", inject=inj, log=t + ".flog", extra=["--no-backup"] + (["--skip-failed"] if noretry == "skip" else ["--no-retry"] if noretry else []))
+            return e, err + ("/skip" if noretry == "skip" else "/no-retry" if noretry else ""), o
 
         from concurrent.futures import ThreadPoolExecutor
         with ThreadPoolExecutor(max_workers=PAR) as ex:
@@ -427,8 +430,10 @@ def cmd_fault(args):
                     os.makedirs("/verif/work/replays", exist_ok=True)
                     dump_path = "/verif/work/replays/fault_%s_%s_%d.txt" % (e["name"], err.replace("/", "_"), e["ordinal"])
                     open(dump_path, "w").write(o)
-                    _, _, o2 = one((e, err.split("/")[0], err.endswith("no-retry")))
-                    same = [l for l in o2.splitlines() if l.startswith(("FAULT ", "FINAL ", "MISMATCH "))] == [l for l in o.splitlines() if l.startswith(("FAULT ", "FINAL ", "MISMATCH "))]
+                    _, _, o2 = one((e, err.split("/")[0], "skip" if err.endswith("skip") else err.endswith("no-retry")))
+                    import re
+                    norm = lambda out: [re.sub(r"\d{6,}", "N", l)[:220] for l in out.splitlines() if l.startswith(("FAULT ", "FINAL ", "MISMATCH "))]  # checksums / timestamps differ from run to run
+                    same = norm(o2) == norm(o)
                     if not same:
                         count(st, "fault.unreproducible_failure_ignored")
                         continue
